@@ -1,7 +1,7 @@
-(** C12 - Collection built-ins obey the invariants and equations the manual states. (first stage)
+(** C12 - Collection built-ins obey the invariants and equations the manual states.
     Model: Val/Val.v [sort_by] (stable insertion sort = the contract of Rust's stable sorts), Std/Natives.v. *)
 From Coq Require Import List ZArith Sorting.Permutation Sorting.Sorted.
-From JaqV Require Import Val.Num Val.Val Proofs.SortLaws.
+From JaqV Require Import Base.Stream Val.Num Val.Val Std.Natives Proofs.SortLaws Proofs.ValOrder Proofs.GroupLaws.
 Import ListNotations.
 
 Lemma insert_by_perm {A} (c : A -> A -> comparison) a l : Permutation (a :: l) (insert_by c a l).
@@ -43,3 +43,38 @@ Theorem sort_integer_array : forall l,
   /\ Sorted.StronglySorted (fun a b => (a <= b)%Z) (sort_by Z.compare l).
 Proof. exact SortLaws.sort_integer_array. Qed.
 Print Assumptions sort_integer_array.
+
+(** ** group_by, sort_by, min_by, max_by of the model (Std/Natives.v) *)
+(** [keyed f xs = (kx, FEnd)]: the key filter produced its keys for every element (kx pairs each element with its keys, in
+    order).  group_by returns the groups of the sorted keyed list: concatenated they are the sorted list - what sort_by returns -,
+    and they are its maximal runs of equal keys ([maximal]: within a group every further element has the key of the first,
+    the next group starts with a different key; no group is empty). *)
+Theorem group_by_partitions_sorted_input : forall f xs kx, keyed f xs = (kx, FEnd) ->
+  let sorted := sort_by (fun a b => keys_cmp (fst a) (fst b)) kx in
+  exists groups, group_by_f f xs = sone (Arr (map (fun g => Arr (map snd g)) groups))
+    /\ concat groups = sorted
+    /\ (sorted <> [] -> maximal groups)
+    /\ (sorted = [] -> groups = []).
+Proof. exact GroupLaws.group_by_spec. Qed.
+Print Assumptions group_by_partitions_sorted_input.
+
+Theorem sort_by_sorts_the_keyed_list : forall f xs kx, keyed f xs = (kx, FEnd) -> (2 <= length xs)%nat ->
+  sort_by_f f xs = sone (Arr (map snd (sort_by (fun a b => keys_cmp (fst a) (fst b)) kx))).
+Proof. exact GroupLaws.sort_by_spec. Qed.
+Print Assumptions sort_by_sorts_the_keyed_list.
+
+Theorem keyed_pairs_the_elements : forall f xs kx, keyed f xs = (kx, FEnd) -> map snd kx = xs.
+Proof. exact GroupLaws.keyed_elements. Qed.
+Print Assumptions keyed_pairs_the_elements.
+
+(** min_by / max_by return an element of the input whose keys are extremal in the order of keys, for every class of numbers
+    on which the order of numbers is a total preorder (ValOrder); nothing on empty input (the definitions in defs.jq turn that
+    into null) *)
+Theorem extrema_are_extremal : forall N, tpo num_cmp N -> forall is_max f xs kx,
+  keyed f xs = (kx, FEnd) -> Forall (keys_ok N) kx ->
+  match kx with
+  | [] => extremal_by is_max f xs = SNil
+  | _ => exists kv, In kv kx /\ extremal_by is_max f xs = sone (snd kv) /\ Forall (le_dir is_max kv) kx
+  end.
+Proof. exact GroupLaws.extremal_by_spec. Qed.
+Print Assumptions extrema_are_extremal.
